@@ -563,7 +563,7 @@ impl Engine for C16 {
     }
     fn runs(&self, tier: Tier) -> u64 {
         match tier {
-            Tier::Quick => 1600,
+            Tier::Quick => 2400,
             Tier::Thorough => 120_000,
         }
     }
